@@ -4,10 +4,27 @@ import json, os, sys
 ROOT = os.path.dirname(os.path.dirname(os.path.abspath(__file__)))
 
 # id -> (engine, technique, level text, level note)
+TB = "Trusts rustc, cosmwasm-std mocks (MockApi; successful address validations are memoised), cw-storage-plus / cw-utils / cw-controllers / cw2, and the driver's rollback-on-error-or-panic as the chain's transaction semantics. Exploration only: holds on the histories actually run."
+TBA = "Trusts rustc, cw-multi-test 2.0 (dispatch, reply, nested rollback, bank) as a stand-in for wasmd, the harness' recorder modules / sink / IBC shim (forward and log only) and its small integer reference models. Exploration only: holds on the histories actually run."
 CHECKS = {
  "C01": ("cwv-direct", "runtime invariant monitor + per-operation delta oracle over seeded random/directed call histories on the real cw20-base entry points",
-         "After every one of ~25k (quick) / ~7M (thorough) executed calls the monitor pages AllAccounts, sums Balance, compares with total_supply and checks the exact per-operation balance/supply delta, including rolled-back and aborted calls and u128 edge amounts. Exploration only: holds on the histories run.",
-         "Trusts rustc, cosmwasm-std mocks (MockApi), cw-storage-plus, and the driver's rollback-on-error as the chain's transaction semantics."),
+         "After every executed call (quick ~25k, thorough ~6M) the monitor pages AllAccounts, sums Balance, compares with total_supply and checks the exact per-operation balance/supply delta, including rolled-back and aborted calls and u128 edge amounts.", TB),
+ "C02": ("cwv-direct", "online reference-model monitor (authority + allowance model, cumulative granted/drawn ledger) over directed race permutations and seeded random histories; Response message decoding",
+         "Every call is judged against an independent allowance/expiry model on the pre-state: who may lower which balance, exact allowance deduction, saturating decrease, cumulative draw bound, exactly-one truthful Receive notification. Includes all orders of increase/decrease/draw at expiry-1/0/+1 for both expiry kinds.", TB),
+ "C04": ("cwv-direct", "differential monitor of the cw3 library predicates against an exact integer reference; complete enumeration of the small scope plus boundary-biased random u64 inputs; brute force over vote completions",
+         "is_passed / is_rejected / current_status of constructed proposals are compared with exact cross-multiplication arithmetic: expired decision equality, no pass without Yes, early pass/reject soundness (closed form cross-checked by brute force), never both, one-vote tolerance for 10-18 decimals. The sub-space total<=9 is enumerated completely.", TB),
+ "C07": ("cwv-direct", "online authorisation-model monitor over seeded random histories on both cw1 proxies; element-wise comparison of Response.messages with the submitted list",
+         "Each Execute by admins, subkeys, ex-admins and strangers with 0-5 messages of every CosmosMsg kind is judged against an independent authorisation model on the pre-state; relayed messages must equal the submitted ones in order; refused calls must change nothing.", TB),
+ "C08": ("cwv-direct", "online reference-model monitor (exact per-denomination deduction, granted/spent ledger, isolation) over directed race permutations and seeded random histories on cw1-subkeys",
+         "Stored allowances of all subkeys are read back after every call and compared with exact coin-by-coin deduction, expiry rejection at the boundary block/time, saturating decrease, restart after expiry, cumulative spent<=granted, and non-interference between subkeys.", TB),
+ "C13": ("cwv-direct", "online reference-model monitor ((minter, cap, renounced) model) over seeded random minter-heavy histories on cw20-base",
+         "Minter and TokenInfo are compared with an independent model after every call: only the current minter mints, never beyond the cap, cap survives hand-overs, former minters and everyone after renounce are refused forever, the current minter is never refused a hand-over.", TB),
+ "C16": ("cwv-direct", "differential runtime monitor: CanExecute query vs Execute on a copy of the same storage, over states reached by random histories",
+         "~280k (quick) / ~70M (thorough) (state, sender, message) probes on both proxies: the query answer must equal the success of the corresponding Execute on an identical storage copy.", TB),
+ "C17": ("cwv-direct", "online invariant monitor over seeded random histories on both cw1 proxies (pre/post comparison of AdminList, stored allowances and permissions)",
+         "The admin list, frozen flag, allowances and permissions are compared before/after every call by admins, removed admins, subkeys and strangers, continuing long after Freeze and for immutable instantiation.", TB),
+ "C19": ("cwv-direct", "online consistency monitor of three query views over seeded random histories, including synthesised pre-0.14 storage carried through the real migrate",
+         "After every call the Allowance point query, paged AllAllowances and paged AllSpenderAllowances are compared for all pool pairs; a third of the histories start from a legacy layout (versions 0.9-0.13, no spender table) and run the real migrate first.", TB),
 }
 
 ALL = ["C%02d" % i for i in range(1, 21)]
